@@ -1,13 +1,38 @@
-"""C20 — integer math helpers and Aggregate: family completeness, intrinsic guards and
-widths, signed forwarding, bit provenance of the portable fall-backs, overflow before
-narrowing, total predicates, Aggregate pre-state purity / twin formulas / guards.
+"""C20 — integer math helpers and Aggregate: values against the documented definition for every overload, generic template and
+front end; family completeness, intrinsic guards and widths, signed forwarding, bit provenance of the portable fall-backs,
+overflow before narrowing, total predicates; Aggregate pre-state purity / combination / formulas / guards / add order.
 
 Verdict policy of this file: a violation is reported only on positive evidence, i.e. a concrete counterexample produced by
 an evaluation of the extracted code (a value for which the helper yields the wrong result or reaches undefined behaviour, a
 result bit that comes from the wrong input bit, a sample state on which operator+= leaves a wrong field).  The structural
 shapes of the first version (dominating zero test, intrinsic suffix, cast to the same-width counterpart, `param + const`)
 are kept as the fast path that establishes "holds" and as the *suspicion* that triggers an evaluation; a suspicion that the
-evaluation cannot confirm or refute is "cannot decide" (exit 2), never a violation."""
+evaluation cannot confirm or refute is "cannot decide" (exit 2), never a violation.
+
+Rules (all run under ck.guarded, each with a floor):
+  FAMILY-COMPLETE   each of the nine families (clz, ctz, ffs, popcount, integer_log2_floor/ceil, is_power_of_two,
+                    round_up/down_to_power_of_two) is defined for the six integer types
+  FAMILY-VALUE      every one of these 54 overloads is evaluated on pow2_family of its type (0, 1, 2^k-1, 2^k, 2^k+1 for all k,
+                    maximum; minimum and the negated family for signed types) against value_ref, the documented definition
+                    (what is demanded for 0 and beyond the largest power of two is written down at value_ref)
+  TEMPLATE-VALUE    the same for every instantiation of the generic loop templates that the witness contains (clz_template,
+                    ctz_template, ffs_template, round_up_to_power_of_two_template; integer_log2_floor_template when
+                    instantiated) and for popcount_generic8 (all values) / 16 / 32 / 64 (bit_family)
+  ROTATE-FRONT      rol32 rol64 ror32 ror64 front ends, counts 0..2*width, negative counts, extremes of int, nine patterns; the
+                    x86 inline assembly form is modelled by x86_rotate_asm (its text is read from the statement's source,
+                    since the extractor does not serialise string literals of asm statements), any other form: cannot decide
+  ABS-DIFF-VALUE SGN-VALUE DIV-CEIL-VALUE ROUND-UP-VALUE   per instantiation, on edge_family pairs / pow2_family / (n, k) grids
+  INTRINSIC-WIDTH INTRINSIC-GUARD SIGNED-FORWARD   suspicious shapes of an overload, decided by evaluating it
+  BIT-PROVENANCE    bswap16/32/64_generic, rol/ror32/64_generic: every result bit traced symbolically to its input bit
+  NO-OVERFLOW-BEFORE-NARROW   div_ceil, round_up, round_down_to_power_of_two near the type's maximum
+  BOOL-TOTAL        is_power_of_two_template incl. the type's minimum (no signed overflow on the way)
+  PRESTATE-PURITY PLUS-COMBINES COMBINE-FORMULA DIV-GUARD ADD-ORDER   Aggregate<double>, Aggregate<int>
+The evaluator (CSkel) follows tlx callees, local closures (by-reference captures, copies of const integers), the gcc/clang
+bit-count intrinsics and the C++20 <bit> functions (std_bit); everything else it meets leaves the value unknown.
+An evaluation that finds a loop back in a state it had before (every write modelled) is a counterexample ("never returns");
+a loop that merely exceeds the round limit is "cannot decide"."""
+import functools
+import re
 from fractions import Fraction
 
 from engine import ir, dtable, match, skel, cfg as cfgm
@@ -29,6 +54,7 @@ FTY = ("float", "double", "long double")
 NUMCASTS = ("ImplicitCastExpr", "CStyleCastExpr", "CXXStaticCastExpr", "CXXFunctionalCastExpr")
 
 
+@functools.lru_cache(maxsize=None)
 def bare(ty):
     return (ty or "").replace("const ", "").replace("volatile ", "").replace("&", "").strip()
 
@@ -77,7 +103,9 @@ class CSkel(skel.Skel):
     """the integer skeleton with the value semantics of C++ on an LP64 target: every integral conversion wraps to its target
     type, unsigned arithmetic is modular, a signed result outside its type and a shift by a negative amount / by the width
     or more are recorded as undefined behaviour in `log`, `/` is truncating for integral and exact (Fraction) for floating
-    types and a division by zero is recorded.  Values that are data stay None: whoever needs them cannot decide."""
+    types and a division by zero is recorded.  Values that are data stay None: whoever needs them cannot decide.
+    Calls of local closures are followed when their captures can be modelled exactly (call_closure); an inline assembly
+    statement is executed only by a model the rule supplies (`asm`), otherwise it cannot be decided."""
 
     def __init__(self, *a, **kw):
         super().__init__(*a, **kw)
@@ -86,6 +114,7 @@ class CSkel(skel.Skel):
         self.cur = None
         self.top = self.fn
         self.raw = None          # optional: sees every expression before casts / converting constructions are looked through
+        self.asm = None          # optional: model of an inline assembly statement (returns True when it executed the statement)
 
     def conv(self, v, ty):
         t = bare(ty)
@@ -210,7 +239,63 @@ class CSkel(skel.Skel):
             self.log.append(("lostwrite", self.cur, None, None, None, None))      # a write to something the skeleton does not model
         super().store(key, v)
 
+    def call_closure(self, e, args):
+        """a call of a local closure object whose lambda captures nothing, captures by reference, or copies const integer
+        objects: the body is evaluated on the enclosing function's own variables (a by-reference capture names the captured
+        declaration itself; the copy of a const object always equals it).  Other copies, `this` and init captures are not
+        modelled: NotImplemented."""
+        if e["k"] != "CXXOperatorCallExpr" or e.get("op") != "()" or self.tu is None or self.depth >= 5 or not args:
+            return NotImplemented
+        callee = self.tu.by_did.get(e["callee"].get("did"))
+        if callee is None or callee.kind != "lambda" or callee.body is None or len(args) - 1 != len(callee.params):
+            return NotImplemented
+        made = [x for x in self.fn.nodes() if x["k"] == "LambdaExpr" and x.get("fn") == callee.did]
+        obj = strip_casts(args[0])
+        if len(made) != 1 or obj is None or obj["k"] != "DeclRefExpr" or obj["ref"].get("kind") != "local":
+            return NotImplemented
+        decl = [x for x in self.fn.nodes() if x["k"] == "VarDecl" and x.get("did") == obj["ref"]["id"]]
+        if len(decl) != 1 or not kids(decl[0]) or strip_casts(kids(decl[0])[0]) is not made[0]:
+            return NotImplemented
+        if "captures" not in made[0]:
+            return NotImplemented
+        for c in made[0]["captures"]:
+            if "id" not in c:
+                return NotImplemented
+            if not c.get("byref"):
+                # a copy of a const integer object always holds the value of the object itself
+                tys = [x.get("ty") for x in self.fn.nodes() if x["k"] == "VarDecl" and x.get("did") == c["id"]] + \
+                      [p.get("ty") for p in self.fn.params if p["did"] == c["id"]]
+                if len(tys) != 1 or not (tys[0] or "").startswith("const ") or (tys[0] or "").replace("const ", "", 1).strip() not in ITY:
+                    return NotImplemented
+        saved_alias = dict(self.alias)
+        for p, a in zip(callee.params, args[1:]):
+            ty = (p.get("ty") or "").rstrip()
+            if ty.endswith("&"):
+                key = self.lvalue(a)
+                if key is None or ty.endswith("&&"):
+                    self.alias = saved_alias
+                    return NotImplemented
+                self.alias[p["did"]] = key
+            else:
+                self.env[p["did"]] = self.ev(a)
+        self.depth += 1
+        saved_fn = self.fn
+        self.fn = callee
+        try:
+            self.run(kids(callee.body))
+            ret = None
+        except skel.Return as r_:
+            ret = r_.v
+        finally:
+            self.fn = saved_fn
+            self.depth -= 1
+            self.alias = saved_alias
+        return ret
+
     def inline(self, e, args):
+        r = self.call_closure(e, args)
+        if r is not NotImplemented:
+            return r
         r = super().inline(e, args)
         if r is NotImplemented:
             # a call that is not followed may write through every non-const lvalue it receives: those objects are unknown now
@@ -225,20 +310,25 @@ class CSkel(skel.Skel):
         if s is not None and self.depth == 0 and self.fn is self.top and s["k"] != "CompoundStmt":
             self.cur = s
         if s is not None and s["k"] in ("GCCAsmStmt", "MSAsmStmt", "AsmStmt"):
+            if self.asm is not None and self.asm(s, self):
+                return
             raise dtable.Undecidable("%s: inline assembly at line %s" % (self.fn.full, s.get("l")))
         super().stmt(s)
 
 
-def cxx_run(tu, fn, env, event=None, raw=None):
-    """-> (return value or None, skeleton)"""
-    sk = CSkel(fn, env, None, event, tu=tu)
+def cxx_run(tu, fn, env, event=None, raw=None, max_iter=None, asm=None, diverges=False):
+    """-> (return value or None, skeleton); diverges=True hands a loop that provably never ends (skel.Diverges) to the caller"""
+    sk = CSkel(fn, env, None, event, tu=tu, max_iter=max_iter)
     sk.raw = raw
+    sk.asm = asm
     try:
         sk.run(kids(fn.body))
         ret = None
     except skel.Return as r_:
         ret = r_.v
     except skel.Diverges as d_:
+        if diverges and not any(x[0] == "lostwrite" for x in sk.log):
+            raise                # every write landed in the model and the state repeats: the loop never ends
         raise dtable.Undecidable("%s: a loop of the skeleton does not end (line %s)" % (fn.loc, (d_.loop or {}).get("l")))
     lost = [x for x in sk.log if x[0] == "lostwrite"]
     if lost:
@@ -270,8 +360,47 @@ def builtin_parts(name):
     return None
 
 
+STD_BIT = ("std::popcount", "std::countl_zero", "std::countl_one", "std::countr_zero", "std::countr_one", "std::has_single_bit",
+           "std::bit_width", "std::bit_floor", "std::bit_ceil", "std::rotl", "std::rotr")
+
+
+def std_bit(e, sk):
+    """the functions of <bit> (C++20 [bit.pow.two], [bit.rotate], [bit.count]) on the unsigned type of their first argument;
+    None where the argument is not a known unsigned integer or the standard leaves the call undefined (bit_ceil above the
+    largest power of two)"""
+    q = e["callee"]["qname"]
+    args = [a for a in kids(e) if a is not None]
+    rot = q in ("std::rotl", "std::rotr")
+    if len(args) != (2 if rot else 1):
+        return None
+    t = bare(args[0].get("ty"))
+    if t not in ITY or ITY[t][0] != 0 or t == "bool":
+        return None
+    w = iwidth(t)
+    m = (1 << w) - 1
+    v = sk.ev(args[0])
+    if not isinstance(v, int) or isinstance(v, bool) or not 0 <= v <= m:
+        return None
+    if rot:
+        c = sk.ev(args[1])
+        if not isinstance(c, int) or isinstance(c, bool):
+            return None
+        k = c % w if q == "std::rotl" else (-c) % w
+        return ((v << k) | (v >> (w - k))) & m if k else v
+    r = {"std::popcount": lambda: bin(v).count("1"), "std::countl_zero": lambda: w - v.bit_length(), "std::countl_one": lambda: w - (v ^ m).bit_length(),
+         "std::countr_zero": lambda: w if v == 0 else (v & -v).bit_length() - 1, "std::countr_one": lambda: ((v + 1) & ~v).bit_length() - 1,
+         "std::has_single_bit": lambda: v != 0 and v & (v - 1) == 0, "std::bit_width": lambda: v.bit_length(),
+         "std::bit_floor": lambda: 0 if v == 0 else 1 << (v.bit_length() - 1),
+         "std::bit_ceil": lambda: 1 if v <= 1 else 1 << (v - 1).bit_length()}[q]()
+    if q == "std::bit_ceil" and r > m:
+        return None
+    return r
+
+
 def builtin_event(e, sk):
-    """model of the gcc/clang bit-count intrinsics on their own operand width"""
+    """model of the gcc/clang bit-count intrinsics on their own operand width and of the <bit> functions"""
+    if e["k"] == "CallExpr" and "callee" in e and e["callee"].get("qname") in STD_BIT:
+        return std_bit(e, sk)
     if e["k"] == "CallExpr" and "callee" in e and e["callee"]["name"].startswith("__builtin_"):
         bp = builtin_parts(e["callee"]["name"])
         if bp is None or len(kids(e)) != 1:
@@ -857,6 +986,415 @@ def check_bool_total(ck, tu):
         ck.guarded(lambda fn=fn: one(fn))
 
 
+# ---------------------------------------------------------------- values against the documented definition
+UB_KINDS = ("builtin0", "overflow", "shift", "div0")
+VALUE_ROUNDS = 300          # loop rounds of one evaluation (the bit loops of the templates need at most the width of the type)
+
+
+def pow2_family(t):
+    """0, 1, 2^k - 1, 2^k, 2^k + 1 for every k of the type, the type's maximum and its neighbour; for a signed type also the
+    minimum, its neighbour and -(2^k) - 1, -(2^k), -(2^k) + 1 for every k"""
+    lo, hi = ITY[t]
+    vs = {0, 1, hi - 1, hi}
+    for k in range(iwidth(t) + 1):
+        vs |= {2 ** k - 1, 2 ** k, 2 ** k + 1}
+        if lo < 0:
+            vs |= {-2 ** k - 1, -2 ** k, -2 ** k + 1}
+    if lo < 0:
+        vs |= {lo, lo + 1}
+    return sorted(v for v in vs if lo <= v <= hi)
+
+
+def bit_family(w):
+    """bit patterns of a w-bit word: every value for 8 bits; otherwise 0, all ones, every one-bit pattern with its two
+    neighbours and the complements of the three, every two-bit pattern, the SWAR masks and other repeated bytes (with a NUL
+    byte shifted in at either end; bytes >= 0x80 among them) and 64 values of a fixed linear congruential sequence"""
+    m = (1 << w) - 1
+    if w <= 8:
+        return list(range(m + 1))
+    vs = {0, m}
+    for k in range(w):
+        for v in ((1 << k) - 1, 1 << k, (1 << k) + 1):
+            vs |= {v & m, ~v & m}
+        for j in range(k):
+            vs.add((1 << k) | (1 << j))
+    for byte in (0x55, 0xAA, 0x33, 0xCC, 0x0F, 0xF0, 0x01, 0x80, 0xFF, 0x7F, 0x81):
+        rep = int.from_bytes(bytes([byte]) * (w // 8), "big")
+        vs |= {rep, rep >> 8, (rep << 8) & m}
+    x = 0x9E3779B97F4A7C15
+    for _ in range(64):
+        x = (x * 6364136223846793005 + 1442695040888963407) % (1 << 64)
+        vs.add(x >> (64 - w))
+    return sorted(vs)
+
+
+def value_ref(fam, v, t):
+    """the value the documented definition demands for fam(v) with v of type t; None: nothing is demanded at this point.
+    Read from the header comments and the explicit guards of the code:
+      clz / ctz       count leading / trailing zeros of the two's complement representation; the explicit zero guard returns
+                      the width of the type (8 * sizeof) for 0
+      ffs             'find first set bit in integer, or zero if none are set': 1-based
+      popcount        'count one bits'
+      integer_log2_floor  floor(log2 i) for i >= 1; the explicit guard returns 0 for 0; nothing is said about negative values
+      integer_log2_ceil   ceil(log2 i) for i >= 1 (the comment says 'log2 floor', a copy of the line above); the code returns 0
+                      for every i <= 1; 0 and negative values are left open by the header: not demanded
+      is_power_of_two 'true if i is a power of two': total, false for 0 and for negative values
+      round_up_to_power_of_two   'round up to next power of two': the smallest power of two >= i for i >= 1 when it is
+                      representable; 0, negative values and values above the largest power of two of the type are left open
+                      (the code yields 0 for 0 and wraps / overflows above the largest power): not demanded
+      round_down_to_power_of_two 'round down to next power of two': the largest power of two <= i for i >= 1 (always
+                      representable); the explicit guard returns 0 for 0; negative values are left open"""
+    lo, hi = ITY[t]
+    w = iwidth(t)
+    u = v % (1 << w)
+    if fam == "clz":
+        return w - u.bit_length()
+    if fam == "ctz":
+        return w if u == 0 else (u & -u).bit_length() - 1
+    if fam == "ffs":
+        return 0 if u == 0 else (u & -u).bit_length()
+    if fam == "popcount":
+        return bin(u).count("1")
+    if fam == "integer_log2_floor":
+        return None if v < 0 else (0 if v == 0 else v.bit_length() - 1)
+    if fam == "integer_log2_ceil":
+        return None if v < 1 else (v - 1).bit_length()
+    if fam == "is_power_of_two":
+        return int(v > 0 and (v & (v - 1)) == 0)
+    if fam == "round_up_to_power_of_two":
+        r = None if v < 1 else 1 << (v - 1).bit_length()
+        return r if r is not None and r <= hi else None
+    if fam == "round_down_to_power_of_two":
+        return None if v < 0 else (0 if v == 0 else 1 << (v.bit_length() - 1))
+    return None
+
+
+def value_at(tu, fn, args, asm=None):
+    """evaluates fn on concrete arguments with C++ value semantics -> ('val', integer, None) | ('ub', text, node);
+    Undecidable when the evaluation does not produce an integer"""
+    env = {p["did"]: a for p, a in zip(fn.params, args)}
+    try:
+        ret, sk = cxx_run(tu, fn, env, builtin_event, max_iter=VALUE_ROUNDS, asm=asm, diverges=True)
+    except skel.Diverges as d_:
+        return ("ub", "never returns: the loop at line %s comes back to the state it had there before" % (d_.loop or {}).get("l"), d_.loop)
+    ub = [x for x in sk.log if x[0] in UB_KINDS]
+    if ub:
+        return ("ub", "is undefined: " + ub_text(ub[0]), ub[0][1])
+    if isinstance(ret, bool):
+        ret = int(ret)
+    if not isinstance(ret, int):
+        raise dtable.Undecidable("%s: %s(%s) cannot be evaluated on the integer skeleton" % (fn.loc, fn.full, ", ".join(str(a) for a in args)))
+    return ("val", ret, None)
+
+
+def decide_values(ck, tu, rule, fn, tag, points, ref, what, asm=None, fmt=str):
+    """fn is evaluated on every argument tuple of `points` for which ref(*args) demands a value: ok when all agree, a violation
+    with the first argument tuple on which fn yields another value or reaches undefined behaviour"""
+    short = fn.full.split("::")[-1]
+    n = 0
+    for args in points:
+        want = ref(*args)
+        if want is None:
+            continue
+        got = value_at(tu, fn, args, asm)
+        n += 1
+        if got[0] == "ub" or got[1] != want:
+            call = "%s(%s)" % (short, ", ".join(fmt(a) for a in args))
+            if "<" not in short:
+                call += " [%s]" % ", ".join(ptype(fn, i) for i in range(len(fn.params)))
+            ck.violation(rule, fn.qname, tag, "%s %s, the documented definition (%s) gives %s"
+                         % (call, got[1] if got[0] == "ub" else "yields %s" % fmt(got[1]), what, fmt(want)),
+                         fn.nloc(got[2]) if got[2] is not None else fn.loc)
+            return
+    if not n:
+        raise dtable.Undecidable("%s: no argument of the family has a documented value for %s" % (fn.loc, short))
+    ck.ok(rule, tag, "%d arguments: equal to %s, no undefined behaviour on the way" % (n, what))
+
+
+FAMILY_WHAT = {"clz": "leading zero bits, the width for 0", "ctz": "trailing zero bits, the width for 0", "ffs": "1-based index of the lowest set bit, 0 for 0",
+               "popcount": "number of one bits", "integer_log2_floor": "floor(log2 i) for i >= 1, 0 for 0", "integer_log2_ceil": "ceil(log2 i) for i >= 1",
+               "is_power_of_two": "i > 0 with one bit set", "round_up_to_power_of_two": "smallest power of two >= i for i >= 1 when representable",
+               "round_down_to_power_of_two": "largest power of two <= i for i >= 1, 0 for 0"}
+
+
+def check_family_values(ck, tu):
+    """FAMILY-VALUE: every overload / specialisation of the nine families for the six integer types is evaluated (callees and
+    intrinsics included) on pow2_family of its parameter type against value_ref"""
+    for fam in FAMILIES:
+        fns = [f for f in tu.find(qname="tlx::" + fam) if len(f.params) == 1 and ptype(f) in WIDTH]
+        if not fns:
+            ck.guarded(lambda fam=fam: ck.require(False, "no single-argument integer overload of tlx::%s in the witness IR" % fam))
+        for fn in fns:
+            t = ptype(fn)
+            ck.guarded(lambda fn=fn, t=t, fam=fam: decide_values(
+                ck, tu, "FAMILY-VALUE", fn, "%s(%s)" % (fam, t), [(v,) for v in pow2_family(t)],
+                lambda v: value_ref(fam, v, t), FAMILY_WHAT[fam]))
+
+
+# the portable implementations behind the intrinsics: template name -> family whose definition it implements
+TEMPLATES = {"clz_template": "clz", "ctz_template": "ctz", "ffs_template": "ffs", "integer_log2_floor_template": "integer_log2_floor",
+             "integer_log2_ceil_template": "integer_log2_ceil", "round_up_to_power_of_two_template": "round_up_to_power_of_two"}
+TEMPLATES_WITNESSED = ("clz_template", "ctz_template", "ffs_template", "round_up_to_power_of_two_template")
+POPCOUNT_GENERIC = {"popcount_generic8": 8, "popcount_generic16": 16, "popcount_generic32": 32, "popcount_generic64": 64}
+
+
+def check_template_values(ck, tu):
+    """TEMPLATE-VALUE: every instantiation of the generic loop templates that the witness contains is evaluated on pow2_family
+    of its parameter type against value_ref of the family it stands in for; popcount_generic8/16/32/64 (SWAR arithmetic) on
+    bit_family of their width (8 bits: every value)"""
+    for name, fam in TEMPLATES.items():
+        fns = [f for f in tu.find(qname="tlx::" + name) if len(f.params) == 1]
+        if not fns and name in TEMPLATES_WITNESSED:
+            ck.guarded(lambda name=name: ck.require(False, "no instantiation of tlx::%s in the witness IR" % name))
+        for fn in fns:
+            t = ptype(fn)
+
+            def one(fn=fn, t=t, fam=fam):
+                if t not in ITY or t == "bool":
+                    raise dtable.Undecidable("%s: parameter type %s of %s not modelled" % (fn.loc, t, fn.full))
+                decide_values(ck, tu, "TEMPLATE-VALUE", fn, fn.full.split("::")[-1], [(v,) for v in pow2_family(t)],
+                              lambda v: value_ref(fam, v, t), FAMILY_WHAT[fam])
+            ck.guarded(one)
+    for name, w in POPCOUNT_GENERIC.items():
+        def swar(name=name, w=w):
+            fn = tu.one(qname="tlx::" + name)
+            t = ptype(fn) if len(fn.params) == 1 else None
+            if t not in ITY or ITY[t] != (0, 2 ** w - 1):
+                raise dtable.Undecidable("%s: %s does not take one unsigned %d-bit argument" % (fn.loc, name, w))
+            decide_values(ck, tu, "TEMPLATE-VALUE", fn, name, [(v,) for v in bit_family(w)], lambda v: bin(v).count("1"),
+                          "number of one bits", fmt=hex)
+        ck.guarded(swar)
+
+
+# ---- rotate front ends
+_SRC = {}
+
+
+def asm_parts(fn, s):
+    """(template, output constraints, input constraints, clobbers) of a GCC-style asm statement.  The extractor serialises the
+    operand expressions of an asm statement but not its string literals; they are read from the statement's own source text
+    at the location the AST gives.  Anything but `asm [volatile] ( "..." : operands : operands [: clobbers] ) ;` with plain
+    string literals is not understood (None)."""
+    path = s.get("f") or fn.file
+    if path not in _SRC:
+        try:
+            with open(path, errors="replace") as fh:
+                _SRC[path] = fh.read().split("\n")
+        except OSError:
+            _SRC[path] = None
+    lines = _SRC[path]
+    if lines is None or not s.get("l") or not s.get("c") or s["l"] > len(lines):
+        return None
+    text = "\n".join(lines[s["l"] - 1:])[s["c"] - 1:]
+    toks = []
+    pos = 0
+    tok = re.compile(r'\s*(?:"((?:[^"\\\n])*)"|([A-Za-z_]\w*)|(//|/\*)|(\S))')
+    depth = 0
+    while True:
+        m = tok.match(text, pos)
+        if not m or m.group(3):
+            return None                      # end of text / a comment inside the statement / an escape in a literal
+        pos = m.end()
+        if m.group(1) is not None:
+            toks.append(("str", m.group(1)))
+        elif m.group(2):
+            toks.append(("id", m.group(2)))
+        else:
+            c = m.group(4)
+            if c == '"':
+                return None
+            if c == ";" and depth == 0:
+                break
+            depth += c == "("
+            depth -= c == ")"
+            toks.append((c, c))
+        if len(toks) > 200:
+            return None
+    if not toks or toks[0] not in (("id", "asm"), ("id", "__asm__"), ("id", "__asm")):
+        return None
+    i = 1
+    while i < len(toks) and toks[i] in (("id", "volatile"), ("id", "__volatile__")):
+        i += 1
+    if i >= len(toks) or toks[i][0] != "(" or toks[-1][0] != ")":
+        return None
+    body = toks[i + 1:-1]
+    sections = [[]]
+    depth = 0
+    for t in body:
+        if t[0] == ":" and depth == 0:
+            sections.append([])
+            continue
+        depth += t[0] == "("
+        depth -= t[0] == ")"
+        sections[-1].append(t)
+    if not 1 <= len(sections) <= 4 or not sections[0] or any(t[0] != "str" for t in sections[0]):
+        return None
+    template = "".join(t[1] for t in sections[0])
+
+    def operands(sec):
+        out = []
+        j = 0
+        while j < len(sec):
+            if sec[j][0] != "str" or j + 1 >= len(sec) or sec[j + 1][0] != "(":
+                return None
+            out.append(sec[j][1])
+            j += 1
+            d = 0
+            while j < len(sec):
+                d += sec[j][0] == "("
+                d -= sec[j][0] == ")"
+                j += 1
+                if d == 0:
+                    break
+            if d != 0:
+                return None
+            if j < len(sec):
+                if sec[j][0] != ",":
+                    return None
+                j += 1
+                if j >= len(sec):
+                    return None
+        return out
+    outs = operands(sections[1]) if len(sections) > 1 else []
+    ins = operands(sections[2]) if len(sections) > 2 else []
+    clob = sections[3] if len(sections) > 3 else []
+    if outs is None or ins is None or any(t[0] not in ("str", ",") for t in clob):
+        return None
+    return template, outs, ins, [t[1] for t in clob if t[0] == "str"]
+
+
+def x86_rotate_asm(s, sk):
+    """model of the one inline assembly form of rol.hpp / ror.hpp: `rol|ror l|q %cl, %0` (AT&T syntax) on a register operand
+    that is read and written, the count in the c register.  x86 semantics (Intel SDM, ROL/ROR): the count is the low byte of
+    the count register masked to 5 bits for a 32-bit and to 6 bits for a 64-bit operand; the operand is rotated by that many
+    bits.  Every other template / constraint list / operand type is not modelled (the caller cannot decide)."""
+    if s["k"] != "GCCAsmStmt":
+        return False
+    parts = asm_parts(sk.fn, s)
+    if parts is None:
+        return False
+    template, outs, ins, clob = parts
+    m = re.fullmatch(r"\s*(rol|ror)([lq])\s+%%cl\s*,\s*%0\s*", template)
+    ops = [x for x in kids(s) if x is not None]
+    if not m or any(c not in ("cc", "memory") for c in clob) or len(ops) != len(outs) + len(ins):
+        return False
+    if (outs, ins) == (["=r"], ["0", "c"]):
+        dst, src, cnt = ops
+    elif (outs, ins) == (["+r"], ["c"]):
+        dst, cnt = ops
+        src = dst
+    else:
+        return False
+    w = 32 if m.group(2) == "l" else 64
+    ty = bare(dst.get("ty"))
+    if ty not in ITY or iwidth(ty) != w or bare(src.get("ty")) != ty or bare(cnt.get("ty")) not in ITY or not dst.get("lv"):
+        return False
+    key = sk.lvalue(dst)
+    if key is None:
+        return False
+    v, c = sk.ev(src), sk.ev(cnt)
+    if not isinstance(v, int) or not isinstance(c, int) or isinstance(v, bool) or isinstance(c, bool):
+        sk.store(key, None)
+        return True
+    u = v % (1 << w)
+    n = (c & 0xFF) & (w - 1)
+    if m.group(1) == "ror":
+        n = (w - n) % w
+    r = ((u << n) | (u >> (w - n))) & ((1 << w) - 1) if n else u
+    sk.store(key, sk.conv(r, ty))
+    return True
+
+
+def check_rotate_front(ck, tu):
+    """ROTATE-FRONT: rol32 / rol64 / ror32 / ror64 as the callers get them (inline assembly on x86, otherwise the generic
+    fall-back) are evaluated for every count 0..2*width, some negative counts and the extremes of int on a few bit patterns:
+    the result is the rotation by (count mod width)"""
+    def one(name, left, w):
+        fn = tu.one(qname="tlx::%s%d" % (name, w))
+        if len(fn.params) != 2 or ptype(fn, 0) not in ITY or ITY[ptype(fn, 0)] != (0, 2 ** w - 1) or ptype(fn, 1) not in ITY:
+            raise dtable.Undecidable("%s: %s does not take (unsigned %d-bit word, integer count)" % (fn.loc, fn.full, w))
+        clo, chi = ITY[ptype(fn, 1)]
+        m = (1 << w) - 1
+        pats = [0, 1, m, 1 << (w - 1), (1 << (w - 1)) | 1, 0x0123456789ABCDEF & m, 0xDEADBEEF00C0FFEE >> (64 - w), 0x00FF00FF00FF0080 & m, 0xFEDCBA9876543210 >> (64 - w)]
+        counts = [c for c in list(range(0, 2 * w + 1)) + [-1, -2, -w + 1, -w, -w - 1, -2 * w, 255, 256, 257, clo, clo + 1, chi - 1, chi] if clo <= c <= chi]
+
+        def ref(x, c):
+            k = c % w if left else (-c) % w
+            return ((x << k) | (x >> (w - k))) & m if k else x
+        decide_values(ck, tu, "ROTATE-FRONT", fn, "%s%d" % (name, w), [(x, c) for x in pats for c in counts], ref,
+                      "rotation %s by count mod %d" % ("left" if left else "right", w), asm=x86_rotate_asm, fmt=hex)
+    for name, left in (("rol", True), ("ror", False)):
+        for w in (32, 64):
+            ck.guarded(lambda name=name, left=left, w=w: one(name, left, w))
+
+
+# ---- abs_diff, sgn, div_ceil, round_up
+def edge_family(t):
+    """the extremes of the type and their neighbours, the values around 0, some small values, the values around the middle"""
+    lo, hi = ITY[t]
+    vs = {lo, lo + 1, lo + 2, -3, -2, -1, 0, 1, 2, 3, 7, 8, 100, hi // 2, hi // 2 + 1, hi - 2, hi - 1, hi, 2 ** 31 - 1, 2 ** 31, 2 ** 32 - 1, 2 ** 32}
+    return sorted(v for v in vs if lo <= v <= hi)
+
+
+def check_arith_values(ck, tu):
+    """ABS-DIFF-VALUE, SGN-VALUE, DIV-CEIL-VALUE, ROUND-UP-VALUE: every instantiation of the four templates is evaluated
+      abs_diff(a, b)  'absolute difference, which also works for unsigned types': |a - b| for all pairs of edge_family when
+                      it is representable in T (for a signed T the difference of the extremes is not: not demanded)
+      sgn(v)          'the signum (-1, 0, +1)': pow2_family
+      div_ceil(n, k)  'n div k with rounding up, for n and k positive!': ceil(n / k) for n >= 1, k >= 1
+      round_up(n, k)  'round n up to the next multiple of k, for n and k positive!': the smallest multiple of k that is >= n
+                      for n >= 1, k >= 1 when it is representable
+    (0 and negative arguments are outside the documented domain of the last two: not demanded)"""
+    def types(fn, n):
+        ts = [ptype(fn, i) for i in range(len(fn.params))]
+        rt = bare(fn.d.get("ret"))
+        if len(ts) != n or any(t not in ITY or t == "bool" for t in ts) or rt not in ITY:
+            raise dtable.Undecidable("%s: %s: parameter / result types %s -> %s not modelled" % (fn.loc, fn.full, ts, rt))
+        return ts, rt
+
+    def tag(fn):
+        return fn.full.split("::")[-1]
+
+    def abs_diff(fn):
+        (ta, tb), rt = types(fn, 2)
+        lo, hi = ITY[rt]
+        decide_values(ck, tu, "ABS-DIFF-VALUE", fn, tag(fn), [(a, b) for a in edge_family(ta) for b in edge_family(tb)],
+                      lambda a, b: abs(a - b) if abs(a - b) <= hi else None, "|a - b| when representable")
+
+    def sgn(fn):
+        (t,), rt = types(fn, 1)
+        decide_values(ck, tu, "SGN-VALUE", fn, tag(fn), [(v,) for v in pow2_family(t)], lambda v: (v > 0) - (v < 0), "-1, 0, +1 as v < 0, v == 0, v > 0")
+
+    def nk_points(tn, tk):
+        hn, hk = ITY[tn][1], ITY[tk][1]
+        ks = [k for k in (1, 2, 3, 4, 7, 8, 10, 1000, 65536, 2 ** 31 - 1, 2 ** 31, hk // 2, hk // 2 + 1, hk - 1, hk) if 1 <= k <= hk]
+        ns = set(n for n in (1, 2, 3, 4, 5, 7, 8, 9, 12, 16, 17, 999, 1000, 1001, 2 ** 31 - 1, 2 ** 31, 2 ** 32 - 1, 2 ** 32, hn // 2, hn // 2 + 1, hn - 2, hn - 1, hn))
+        pts = set()
+        for k in ks:
+            for n in ns | {k * q + d for q in (1, 2, 3, 5) for d in (-1, 0, 1)} | {hn - hn % k - 1, hn - hn % k, hn - hn % k + 1}:
+                if 1 <= n <= hn:
+                    pts.add((n, k))
+        return sorted(pts)
+
+    def div_ceil(fn):
+        (tn, tk), rt = types(fn, 2)
+        hi = ITY[rt][1]
+        decide_values(ck, tu, "DIV-CEIL-VALUE", fn, tag(fn), nk_points(tn, tk),
+                      lambda n, k: -(-n // k) if -(-n // k) <= hi else None, "ceil(n / k) for n, k >= 1")
+
+    def round_up(fn):
+        (tn, tk), rt = types(fn, 2)
+        hi = ITY[rt][1]
+        decide_values(ck, tu, "ROUND-UP-VALUE", fn, tag(fn), nk_points(tn, tk),
+                      lambda n, k: -(-n // k) * k if -(-n // k) * k <= hi else None, "smallest multiple of k >= n for n, k >= 1 when representable")
+    for q, rule in (("tlx::abs_diff", abs_diff), ("tlx::sgn", sgn), ("tlx::div_ceil", div_ceil), ("tlx::round_up", round_up)):
+        fns = tu.find(qname=q)
+        if not fns:
+            ck.guarded(lambda q=q: ck.require(False, "no instantiation of %s in the witness IR" % q))
+        for fn in fns:
+            ck.guarded(lambda rule=rule, fn=fn: rule(fn))
+
+
 # ---------------------------------------------------------------- Aggregate
 AG = "tlx::Aggregate"
 FIELDS = ("count_", "mean_", "nvar_", "min_", "max_")
@@ -1142,20 +1680,43 @@ def check_aggregate(ck, tu):
 
 def run(ck):
     ck.explanation = (
-        "Structural rules over all overloads: every family is defined for the six integer types; each compiler intrinsic has the operand width of its "
-        "parameter type, clz/ctz intrinsics are dominated by a zero test, signed overloads forward to the same-width unsigned one. The portable bswap and "
-        "rotate fall-backs are decided completely by symbolic bit provenance (every result bit traced to its input bit, for every rotation amount). Total "
-        "helpers must not add to the raw argument before narrowing (div_ceil, round_up, round_down_to_power_of_two) and the power-of-two predicate must "
-        "reject non-positive values before i & (i-1). Aggregate: operator+= computes every quantity from the pre-state, + and += use the same helpers, the "
-        "helpers equal the pooled mean / sum-of-squares formulas exactly (rational identity test on the extracted expressions), the shared denominator is "
-        "guarded against two empty operands. A violation is only reported with a concrete counterexample of an evaluation with C++ value semantics; an "
-        "unusual form that cannot be evaluated is 'cannot decide'. Not decided: the loop-based templates (clz/ctz/ffs/log2), popcount SWAR arithmetic, "
-        "floating-point rounding.")
+        "Every rule evaluates the extracted code with C++ value semantics (LP64; conversions wrap, unsigned arithmetic is modular, signed overflow, "
+        "over-wide shifts, division by zero and a clz/ctz intrinsic on 0 are recorded as undefined behaviour; callees, intrinsics and bounded loops are "
+        "followed) and reports a violation only with a concrete counterexample; a form that cannot be evaluated is 'cannot decide'. "
+        "Value rules: FAMILY-VALUE decides every overload of clz, ctz, ffs, popcount, integer_log2_floor/ceil, is_power_of_two, round_up/down_to_power_of_two "
+        "for the six integer types on 0, 1, 2^k-1, 2^k, 2^k+1 for every k, the type's maximum, and for signed types the minimum and -(2^k)-1, -(2^k), "
+        "-(2^k)+1, against the documented definition (clz/ctz(0) = width, ffs(0) = 0, log2_floor(0) = 0, round_down(0) = 0 as the code's explicit guards "
+        "say; integer_log2_ceil for i <= 0, round_up_to_power_of_two for i <= 0 and above the largest power of two, and negative arguments of the log2 / "
+        "rounding helpers are left open by the headers and nothing is demanded there). TEMPLATE-VALUE does the same for every instantiation of the generic "
+        "loop templates in the witness (clz_template, ctz_template, ffs_template, round_up_to_power_of_two_template for the six types) and decides "
+        "popcount_generic8 on all 256 values and popcount_generic16/32/64 on all one- and two-bit patterns, neighbours of powers of two and their "
+        "complements, the SWAR masks and 64 fixed pseudo-random words; both sides of the intrinsic / fall-back pair are thus compared with one reference. "
+        "ROTATE-FRONT evaluates rol32/rol64/ror32/ror64 as callers get them (the x86 inline assembly `rol|ror %cl, reg` is modelled exactly: count = low "
+        "byte masked to 5 / 6 bits; any other assembly text is 'cannot decide') for every count 0..2*width, negative counts and the extremes of int on nine "
+        "bit patterns. ABS-DIFF-VALUE (all pairs of the extremes, their neighbours, small and middle values; |a-b| when representable), SGN-VALUE, "
+        "DIV-CEIL-VALUE and ROUND-UP-VALUE (n, k >= 1 incl. exact multiples and their neighbours, the type's maximum; the result when representable) decide "
+        "the four small templates per instantiation. "
+        "Structure-triggered rules: every family is defined for the six integer types (FAMILY-COMPLETE); an intrinsic of another operand width than its "
+        "parameter, a missing dominating zero test before a clz/ctz intrinsic and a signed overload that does not forward to its same-width counterpart "
+        "are suspicions that are confirmed or refuted by the evaluation (INTRINSIC-WIDTH, INTRINSIC-GUARD, SIGNED-FORWARD). The portable bswap and rotate "
+        "fall-backs are decided completely by symbolic bit provenance (every result bit traced to its input bit, for every rotation amount). Total helpers "
+        "must not wrap an addition on the raw argument before narrowing (div_ceil, round_up, round_down_to_power_of_two; evaluated at the type's maximum) "
+        "and the power-of-two predicate must be total without signed overflow (BOOL-TOTAL). Aggregate: operator+= computes every quantity from the "
+        "pre-state, + and += combine the five quantities through the same helpers, the helpers equal the pooled mean / sum-of-squares formulas exactly "
+        "(rational evaluation of the extracted expressions), the shared denominator is guarded against two empty operands, add() increments the count "
+        "before it divides by it (ADD-ORDER). "
+        "Not decided: values outside the argument families (the 64-bit domain is sampled, not exhausted), 8/16-bit instantiations of the loop templates and "
+        "integer_log2_floor_template (the witness does not instantiate them), the MSVC branches, popcount over a memory range, agreement of the compiler "
+        "intrinsics and of the x86 rotate instructions with their documented semantics (trusted), floating-point rounding.")
     tu = ir.extract("witness/C20_math.cpp")
     check_families(ck, tu)
     check_bits(ck, tu)
     check_overflow(ck, tu)
     check_bool_total(ck, tu)
+    check_family_values(ck, tu)
+    check_template_values(ck, tu)
+    check_rotate_front(ck, tu)
+    check_arith_values(ck, tu)
     check_aggregate(ck, tu)
     ck.floor("FAMILY-COMPLETE", 9)
     ck.floor("INTRINSIC-WIDTH", 20)
@@ -1168,3 +1729,11 @@ def run(ck):
     ck.floor("PLUS-COMBINES", 4)
     ck.floor("COMBINE-FORMULA", 4)
     ck.floor("DIV-GUARD", 4)
+    ck.floor("ADD-ORDER", 2)             # Aggregate<double>::add, Aggregate<int>::add
+    ck.floor("FAMILY-VALUE", 54)         # nine families x six integer types
+    ck.floor("TEMPLATE-VALUE", 28)       # clz_ / ctz_ / ffs_ / round_up_to_power_of_two_template x six types, popcount_generic8/16/32/64
+    ck.floor("ROTATE-FRONT", 4)          # rol32 rol64 ror32 ror64
+    ck.floor("ABS-DIFF-VALUE", 6)
+    ck.floor("SGN-VALUE", 6)
+    ck.floor("DIV-CEIL-VALUE", 6)
+    ck.floor("ROUND-UP-VALUE", 6)
